@@ -106,6 +106,8 @@ type Sched struct {
 
 	Truncated  bool
 	Deadlocked bool
+	// ArmOnly: no scheduling at all, only the lock probes are armed (Prop.ArmLockProbes)
+	ArmOnly bool
 	// NoDeadlockFail: the property's own oracle reports lock deadlocks (with a better message)
 	NoDeadlockFail bool
 	fail           *Violation
@@ -172,6 +174,9 @@ func init() {
 		if s == nil {
 			return 2
 		}
+		if s.ArmOnly {
+			return 1 // history driver: one goroutine drives the library, every caller is "the root"
+		}
 		if goid() == s.rootGid {
 			return 1
 		}
@@ -187,7 +192,7 @@ func init() {
 //go:norace
 func globalSelectHook(site string, n int) int {
 	s := curSched.Load()
-	if s == nil {
+	if s == nil || s.ArmOnly {
 		return -1
 	}
 	k := s.T.Intn(verifsim.SelectPerms(n), "select-order") // tape.go is go:norace as well
@@ -201,7 +206,7 @@ func globalSelectHook(site string, n int) int {
 //go:norace
 func globalSelectHit(site string, i int) {
 	s := curSched.Load()
-	if s == nil || RaceBuild {
+	if s == nil || RaceBuild || s.ArmOnly {
 		// race build (C17): map operations are reported by the race detector even from go:norace code (the
 		// runtime's map functions carry their own instrumentation), and this probe is not needed there
 		return
@@ -215,7 +220,7 @@ func globalSelectHit(site string, i int) {
 //go:norace
 func globalHook(kind int, site string) {
 	s := curSched.Load()
-	if s == nil {
+	if s == nil || s.ArmOnly {
 		return
 	}
 	raceOff()
